@@ -3,6 +3,7 @@ package mc
 import (
 	"encoding/json"
 	"fmt"
+	"time"
 
 	"github.com/kubewharf/kubebrain/zz_verif/rt/vrt"
 )
@@ -12,12 +13,22 @@ import (
 // executed on a fresh real instance by replaying the shortest history that reaches the state plus
 // one more operation.
 
+// jobUntil is the absolute deadline of the running job; long oracle loops poll Expired().
+var jobUntil time.Time
+
+// Expired reports whether the tier budget of the running job is used up.
+func Expired() bool { return !jobUntil.IsZero() && time.Now().After(jobUntil) }
+
+// SeqHorizon is the step horizon of one history execution (0 = default).
+var SeqHorizon int
+
 // SeqOut is what one executed history reports.
 type SeqOut struct {
 	Key   string // canonical key of the state reached ("" = do not extend: terminal)
 	Obs   string
 	Viols []Violation
 	Evals int // oracle evaluations (read-backs) performed
+	Cut   bool // the budget ran out inside this history's oracle loop
 }
 
 type seqJob struct {
@@ -45,6 +56,10 @@ func SeqExec(j *Job, run func(cfg int, hist []int) *SeqOut) *JobResult {
 		return &JobResult{Err: "bad seq job: " + err.Error()}
 	}
 	res := &JobResult{Outcomes: map[string]int{}}
+	jobUntil = time.Time{}
+	if j.Until > 0 {
+		jobUntil = time.UnixMilli(j.Until)
+	}
 	var sr seqRes
 	ops := make([]int, 0, sj.N)
 	if j.Bound == -1 { // replay of one exact history
@@ -60,11 +75,14 @@ func SeqExec(j *Job, run func(cfg int, hist []int) *SeqOut) *JobResult {
 			h = sj.Hist
 		}
 		var out *SeqOut
-		r := vrt.Run(vrt.Config{Trace: j.Trace}, func() { out = run(sj.Cfg, h) })
+		r := vrt.Run(vrt.Config{Trace: j.Trace, Horizon: SeqHorizon}, func() { out = run(sj.Cfg, h) })
 		res.Execs++
 		res.Steps += r.Steps
 		if out == nil {
 			out = &SeqOut{}
+		}
+		if out.Cut {
+			res.Cut = true
 		}
 		if r.Panic != "" {
 			out.Viols = append(out.Viols, Violation{Sig: "panic", Detail: r.Panic})
